@@ -136,6 +136,13 @@ func (d *Decrypter) processMessage(device *model.Device, decoded server.LoRaMess
 }
 
 func (d *Decrypter) verifyAndDecryptMessage(decoded server.LoRaMessage) {
+	// Only uplink data frames are processed. Downlink frames (f.e. our own,
+	// picked up by another gateway), JoinAccept and the rest are ignored.
+	if decoded.Payload.MHDR.MType != protocol.UnconfirmedDataUp &&
+		decoded.Payload.MHDR.MType != protocol.ConfirmedDataUp {
+		lg.Info("Ignoring message with type %s", decoded.Payload.MHDR.MType)
+		return
+	}
 	lg.Debug("Verifying message from device with DevAddr %s", decoded.Payload.MACPayload.FHDR.DevAddr)
 	devices, err := d.context.Storage.GetDeviceByDevAddr(decoded.Payload.MACPayload.FHDR.DevAddr)
 	if err != nil {
@@ -158,6 +165,11 @@ func (d *Decrypter) verifyAndDecryptMessage(decoded server.LoRaMessage) {
 	checked := 0
 	for _, dev := range devices {
 		checked++
+		if dev.NwkSKey.Empty() {
+			// The device has no session (f.e. an OTAA device that hasn't joined
+			// yet). An all-zero key doesn't authenticate anything.
+			continue
+		}
 		lg.Debug("Testing MIC for device %s", dev.DeviceEUI)
 		mic, err := decoded.Payload.CalculateMIC(dev.NwkSKey, rawMessage[0:len(rawMessage)-4])
 		if err != nil {
